@@ -291,6 +291,11 @@ psRes_t psPkcs8ParsePrivBin(psPool_t *pool,
             psTraceCrypto("Couldn't parse PKCS#8 param iterationCount\n");
             return PS_FAILURE;
         }
+        if (icount > PS_PBE_MAX_ITERATIONS)
+        {
+            psTraceIntCrypto("PKCS#8 iteration count %d too large\n", icount);
+            return PS_LIMIT_FAIL;
+        }
         /* Get encryptionScheme */
         if (getAsnAlgorithmIdentifier(&p, (int32) (end - p), &oi, &plen)
             < 0)
